@@ -75,10 +75,10 @@ func init() {
 		hw.Opts{Groups: groups("c11", "c01"), MinSteps: 4, MaxSteps: 60, SmallPrune: true, LargeEvery: 60, Twin: true,
 			WMint: 60, WDeliver: 20, WClean: 5, WSave: 3, WReload: 12, WMark: 4, WUnmark: 1})
 
-	hprop("C12", histRule+"headers are also marked invalid and unmarked at tape-chosen points (the work floor follows the reference tip down when a marking lowers it); for each sampled Clean and Save EVERY prefix of the Write/Remove calls it issued (including empty and full) is turned into a disk image that a fresh repository loads; the load must succeed without panic and report a linked chain of accepted headers with work >= the tip at the last completed Save, and the loaded repository must accept an extension; non-trivial = every run with at least one crash enumeration; crash points are counted under faults_fired",
+	hprop("C12", histRule+"for each sampled Clean and Save EVERY prefix of the Write/Remove calls it issued (including empty and full) is turned into a disk image that a fresh repository loads; the load must succeed without panic and report a linked chain of accepted headers with work >= the tip at the last completed Save, and the loaded repository must accept an extension; non-trivial = every run with at least one crash enumeration; crash points are counted under faults_fired",
 		25, 900, []string{"crash-op-with>=4-mutations", "crash-with-side-branches"}, []string{"crash-point"}, "fault_enumeration",
 		hw.Opts{Groups: groups("c12"), MinSteps: 4, MaxSteps: 40, SmallPrune: true, LargeEvery: 60,
-			WMint: 60, WDeliver: 20, WClean: 3, WSave: 2, WReload: 3, WCrash: 10, WMark: 3, WUnmark: 1})
+			WMint: 60, WDeliver: 20, WClean: 3, WSave: 2, WReload: 3, WCrash: 10})
 
 	hprop("C17", histRule+"headers are marked invalid (best chain at any depth, side branch, first of branch, not yet seen, already marked, unknown hash) and unmarked at tape-chosen points, with Save/restart in between; after every event the reported tip must be the heaviest chain not built on a marked header, marked headers and descendants must not be flagged best-chain, resubmission must be refused as marked, and after unmarking the header must be accepted again; non-trivial = every run with at least one marking",
 		25, 900, []string{"mark:best-chain", "mark:side-branch", "mark:first-of-branch", "mark:not-yet-seen", "mark:already-marked", "mark:unknown-hash", "mark-forced-fallback", "unmark", "accepted-again-after-unmark", "refusal:marked-invalid"}, nil, "exploration",
